@@ -890,7 +890,42 @@ def run_C16(ctx):
     replay_texts(ctx, "roundtrip", recs, keep=lambda f: "round trip" in f["reason"] or "panicked" in f["reason"])
 
 
+def tlaps_isa(ctx):
+    """Unbounded: TLAPS proves Decode(Encode(i)) = i of Isa.tla for ALL well-typed instructions
+    (spec/IsaProofs.tla, 128 obligations, SMT back end).  Negative control: with one constant of the
+    decoder changed the proof must fail."""
+    import shutil, re
+    for name, mutate in (("proof", False), ("negctl", True)):
+        wd = os.path.join(ctx.workdir, "tlaps-" + name)
+        shutil.rmtree(wd, ignore_errors=True)
+        os.makedirs(wd)
+        isa = open(os.path.join(core.SPEC, "Isa.tla")).read()
+        if mutate:
+            assert "THEN b3 - 256 ELSE b3" in isa
+            isa = isa.replace("THEN b3 - 256 ELSE b3", "THEN b3 - 255 ELSE b3")
+        open(os.path.join(wd, "Isa.tla"), "w").write(isa)
+        shutil.copy(os.path.join(core.SPEC, "IsaProofs.tla"), wd)
+        p = core.sh(["tlapm", "--threads", "6", "--cleanfp", "IsaProofs.tla"], cwd=wd, timeout=1500, check=False)
+        m = re.search(r"All (\d+) obligations proved", p.stdout)
+        if not mutate:
+            if not m:
+                f = re.search(r"(\d+)/(\d+) obligations failed", p.stdout)
+                if f:
+                    ctx.violation(f"TLAPS: {f.group(1)} of {f.group(2)} proof obligations of IsaProofs.tla (Decode o Encode = identity) fail: the specification's encoding is not injective, or the proof no longer fits it",
+                                  {"kind": "tlaps", "output": p.stdout[-3000:]})
+                else:
+                    raise ToolError("tlapm failed on IsaProofs.tla:\n" + p.stdout[-2000:])
+            else:
+                ctx.extra["tlaps"] = {"module": "IsaProofs.tla", "theorem": "\\A i \\in Insn32 : Decode(Encode(i)) = i (all opcodes, register nibbles, 65,536 offsets, 2^32 immediates)",
+                                      "obligations_proved": int(m.group(1))}
+        elif m:
+            raise ToolError("negative control failed: IsaProofs.tla is still proved with a wrong decoder constant")
+        shutil.rmtree(wd, ignore_errors=True)
+    ctx.extra["tlaps"]["negative_control"] = "with DecodeOff's 256 replaced by 255 the proof fails, as it must"
+
+
 def run_C17(ctx):
+    tlaps_isa(ctx)
     consts = dict(BASE_CONSTS)
     consts.update({"Fams": {"enc", "builder"}, "Seed": ctx.seed, "Rate": 8 if ctx.quick else 1})
     r = run_tlc(f"{ctx.prop}-isa", "MC_Isa", consts, invariants=["Inv"], workers=10, timeout=2400)
